@@ -7,7 +7,7 @@
     Order-insensitivity theorems that live elsewhere: minimisation does not depend on the work-list
     order (Props/C03.v), the validated tree does not depend on the order of definitions
     (Props/C14.v). *)
-From CG Require Import Base.Prelude Model.Dfa Proofs.DfaEq.
+From CG Require Import Base.Prelude Model.Dfa Model.DfaEqb Proofs.DfaEq.
 
 Theorem C10_intern_equality_exact :
   forall a b : dfa, dfa_eqb a b = true <-> a = b.
